@@ -20,7 +20,7 @@ ANCHORS = ['lib/python/treadmill/utils.py', 'lib/python/treadmill/appcfg/__init_
            'lib/python/treadmill/trace/app/zk.py', 'lib/python/treadmill/zkutils.py',
            'lib/python/treadmill/admin/_ldap.py']
 PREAMBLE = ('From Coq Require Import ZArith List String.\nImport ListNotations.\n'
-            'From TM Require Import Codec.BaseN Codec.Dec Codec.Event Codec.C15Run.\nOpen Scope Z_scope.\n')
+            'From TM Require Import Codec.BaseN Codec.Dec Codec.Event Codec.Rule Codec.C15Run.\nOpen Scope Z_scope.\n')
 RUN_FN = 'run_case'
 
 E_VALUE, E_INDEX, E_ZERODIV, E_TYPE, E_OTHER = 1, 2, 3, 4, 5
@@ -872,6 +872,222 @@ def oracle_node_dec(case, o):
     return None
 
 
+# ------------------------------------------------------------------ 3. firewall rule file names
+import re as _re
+_QUAD = _re.compile(r'\A[0-9]{1,3}(\.[0-9]{1,3}){3}\Z')
+_CHAIN = _re.compile(r'\A[A-Za-z0-9_]{2,32}\Z')
+
+
+def gen_ip(rng):
+    return '.'.join(str(rng.choice([0, 1, 9, 10, 99, 100, 192, 255, 999, rng.randint(0, 255)])) for _ in range(4))
+
+
+def gen_port(rng):
+    return rng.choice([0, 0, 1, 22, 80, 8080, 9999, 10000, 65535, 65536, 99999, rng.randint(1, 99999)])
+
+
+def gen_rule_value(rng, malformed):
+    rtype = rng.choice(['dnat', 'dnat', 'snat', 'snat', 'pt'])
+    chain = rng.choice(['PREROUTING_DNAT', 'POSTROUTING_SNAT', 'ab', 'x' * 32, 'T_' + rand_str(rng, LOWER + DIGITS + '_', 0, 12)])
+    if rtype == 'pt':
+        r = {'rtype': 'pt', 'src_ip': gen_ip(rng), 'dst_ip': gen_ip(rng)}
+    else:
+        r = {'rtype': rtype, 'proto': rng.choice(['tcp', 'udp']),
+             'src_ip': rng.choice([None, gen_ip(rng)]), 'src_port': gen_port(rng),
+             'dst_ip': rng.choice([None, gen_ip(rng)]), 'dst_port': gen_port(rng),
+             'new_ip': gen_ip(rng), 'new_port': gen_port(rng)}
+    if malformed:
+        m = rng.randrange(8)
+        if m == 0:
+            chain = rng.choice(['a', 'x' * 33, 'with-dash', 'co:lon', '', 'é_chain'])
+        elif m == 1 and rtype != 'pt':
+            r['proto'] = rng.choice(['icmp', 'TCP', '', 'tcp6'])
+        elif m == 2:
+            r[rng.choice(['src_ip', 'dst_ip'])] = rng.choice(['0.0.0.0/0', '1.2.3', '1.2.3.4.5', '1000.1.1.1', '*',
+                                                              'a.b.c.d', '1.2.3.4\n', '', '1.2.3.4:80', '1.2.3.4-5'])
+        elif m == 3 and rtype != 'pt':
+            r[rng.choice(['src_port', 'dst_port', 'new_port'])] = rng.choice([-1, 100000, 123456, -80])
+        elif m == 4 and rtype != 'pt':
+            r['new_ip'] = rng.choice(['*', '0.0.0.0/0', '', '1.2.3'])
+    return chain, r
+
+
+def gen_rule(rng, malformed):
+    chain, r = gen_rule_value(rng, malformed)
+    c2, r2 = chain, dict(r)
+    m = rng.randrange(6)
+    if m == 0 and r['rtype'] != 'pt':
+        r2['rtype'] = 'snat' if r['rtype'] == 'dnat' else 'dnat'
+    elif m == 1:
+        r2['src_ip'], r2['dst_ip'] = r['dst_ip'], r['src_ip']
+    elif m == 2 and r['rtype'] != 'pt':
+        r2['src_port'], r2['dst_port'] = r['dst_port'], r['src_port']
+    elif m == 3 and r['rtype'] != 'pt':
+        r2['new_port'] = r['new_port'] + 1
+    elif m == 4:
+        c2 = chain + '_'
+    return {'kind': 'rule', 'chain': chain, 'rule': r, 'chain2': c2, 'rule2': r2}
+
+
+def _mk_rule(r):
+    fw = mod('treadmill.firewall')
+    if r['rtype'] == 'pt':
+        return fw.PassThroughRule(r['src_ip'], r['dst_ip'])
+    cls = fw.DNATRule if r['rtype'] == 'dnat' else fw.SNATRule
+    return cls(proto=r['proto'], new_ip=r['new_ip'], new_port=r['new_port'], src_ip=r['src_ip'],
+               src_port=r['src_port'], dst_ip=r['dst_ip'], dst_port=r['dst_port'])
+
+
+def _dump_rule(rule):
+    fw = mod('treadmill.firewall')
+    if isinstance(rule, fw.PassThroughRule):
+        return {'rtype': 'pt', 'src_ip': rule.src_ip, 'dst_ip': rule.dst_ip}
+    d = {'rtype': 'dnat' if isinstance(rule, fw.DNATRule) else 'snat', 'proto': rule.proto,
+         'src_port': rule.src_port, 'dst_port': rule.dst_port, 'new_ip': rule.new_ip, 'new_port': rule.new_port}
+    for k in ('src_ip', 'dst_ip'):
+        v = getattr(rule, k)
+        d[k] = None if v is fw.ANY_IP else v
+    return d
+
+
+def _get_rule(name):
+    rf = mod('treadmill.rulefile')
+    r = call(rf.RuleMgr.get_rule, name)
+    if r[0] == 'ok' and r[1] is not None:
+        return ['ok', [r[1][0], _dump_rule(r[1][1])]], r[1]
+    return r, None
+
+
+def impl_rule(case):
+    rf = mod('treadmill.rulefile')
+    try:
+        rule, rule2 = _mk_rule(case['rule']), _mk_rule(case['rule2'])
+    except Exception as e:
+        return {'enc': ['err', errcode(e), '%s: %s' % (type(e).__name__, e)]}
+    enc = call(rf.RuleMgr._filenameify, case['chain'], rule)
+    o = {'enc': enc, 'enc2': call(rf.RuleMgr._filenameify, case['chain2'], rule2), 'same_value': rule == rule2}
+    if enc[0] == 'ok':
+        o['dec'], raw = _get_rule(enc[1])
+        o['equal'] = raw is not None and raw == (case['chain'], rule)
+    return o
+
+
+def f_rule(d):
+    if d['rtype'] == 'pt':
+        return [2] + fstr(d['src_ip']) + fstr(d['dst_ip'])
+    return ([0 if d['rtype'] == 'dnat' else 1] + fstr(d['proto']) + f_ostr(d['src_ip']) + [d['src_port']]
+            + f_ostr(d['dst_ip']) + [d['dst_port']] + fstr(d['new_ip']) + [d['new_port']])
+
+
+def _ascii(s):
+    return all(ord(c) < 128 for c in s)
+
+
+def flat_rule(case, o):
+    if o['enc'][0] != 'ok' or o['dec'][0] != 'ok' or not _ascii(o['enc'][1]):
+        return None
+    out = [0] + fstr(o['enc'][1])
+    if o['dec'][1] is None:
+        return out + [0]
+    return out + [1] + fstr(o['dec'][1][0]) + f_rule(o['dec'][1][1])
+
+
+def t_rule(r):
+    if r['rtype'] == 'pt':
+        return '(PassThrough %s %s)' % (t_str(r['src_ip']), t_str(r['dst_ip']))
+    return '(%s %s %s %s %s %s %s %s)' % ('DNAT' if r['rtype'] == 'dnat' else 'SNAT', t_str(r['proto']),
+                                          t_ostr(r['src_ip']), G.z(r['src_port']), t_ostr(r['dst_ip']),
+                                          G.z(r['dst_port']), t_str(r['new_ip']), G.z(r['new_port']))
+
+
+def rule_domain(chain, r):
+    if not _CHAIN.match(chain):
+        return False
+    if r['rtype'] == 'pt':
+        return bool(_QUAD.match(r['src_ip']) and _QUAD.match(r['dst_ip']))
+    return (r['proto'] in ('tcp', 'udp') and all(r[k] is None or _QUAD.match(r[k]) for k in ('src_ip', 'dst_ip'))
+            and bool(_QUAD.match(r['new_ip'])) and all(0 <= r[k] <= 99999 for k in ('src_port', 'dst_port', 'new_port')))
+
+
+def oracle_rule(case, o):
+    if not rule_domain(case['chain'], case['rule']):
+        return None
+    if o['enc'][0] != 'ok':
+        return ('rule-file-encode-fails', '_filenameify raises %s' % o['enc'][2])
+    out = []
+    if not (o['dec'] == ['ok', [case['chain'], case['rule']]] and o['equal']):
+        out.append(('rule-file-roundtrip', 'rule %r in chain %r is written as %r which reads back as %r'
+                    % (case['rule'], case['chain'], o['enc'][1], o['dec'])))
+    if rule_domain(case['chain2'], case['rule2']) and o['enc2'] == o['enc'] and \
+            not (o['same_value'] and case['chain2'] == case['chain']):
+        out.append(('rule-file-collision', '(%r, %r) and (%r, %r) share the file name %r'
+                    % (case['chain'], case['rule'], case['chain2'], case['rule2'], o['enc'][1])))
+    return out or None
+
+
+def gen_rule_dec(rng, malformed):
+    rf_chain, r = gen_rule_value(rng, False)
+    if r['rtype'] == 'pt':
+        name = '%s:passthrough:%s-%s' % (rf_chain, r['src_ip'], r['dst_ip'])
+    else:
+        def p(v):
+            return '*' if v in (0, None) else str(v)
+        name = '%s:%s:%s:%s:%s:%s:%s-%s:%s' % (rf_chain, r['rtype'], r['proto'], p(r['src_ip']), p(r['src_port']),
+                                               p(r['dst_ip']), p(r['dst_port']), r['new_ip'], r['new_port'])
+    m = rng.randrange(14)
+    if m == 0:
+        name += '\n'
+    elif m == 1:
+        name += rng.choice(['\n\n', ' ', ':', '0', 'x', '\r\n'])
+    elif m == 2:
+        name = name.replace(':', ': ', 1)
+    elif m == 3:
+        i = rng.randrange(len(name))
+        name = name[:i] + rng.choice(ODDCH + ['0', '00', '*', ':', '-', '.']) + name[i:]
+    elif m == 4:
+        i = rng.randrange(len(name))
+        name = name[:i] + name[i + 1:]
+    elif m == 5:
+        name = name.replace('-', ':', 1)
+    elif m == 6:
+        name = _re.sub(r'(\d+)$', lambda mm: '0' * rng.randint(1, 3) + mm.group(1), name)     # leading zeros
+    elif m == 7:
+        name = name.replace('dnat', 'snat') if 'dnat' in name else name.replace('snat', 'dnat')
+    elif m == 8:
+        name = name.replace('tcp', rng.choice(['icmp', 'TCP', 'tcpudp', '']))
+    elif m == 9:
+        name = rand_str(rng, NAMECH + ':*', 0, 30)
+    return {'kind': 'rule_dec', 'name': name}
+
+
+def impl_rule_dec(case):
+    rf = mod('treadmill.rulefile')
+    dec, raw = _get_rule(case['name'])
+    o = {'dec': dec}
+    if raw is not None:
+        re_name = call(rf.RuleMgr._filenameify, raw[0], raw[1])
+        o['reenc'] = re_name
+        if re_name[0] == 'ok':
+            back = call(rf.RuleMgr.get_rule, re_name[1])
+            o['stable'] = back[0] == 'ok' and back[1] == raw
+    return o
+
+
+def flat_rule_dec(case, o):
+    if o['dec'][0] != 'ok' or not _ascii(case['name']):
+        return None
+    if o['dec'][1] is None:
+        return [0]
+    return [1] + fstr(o['dec'][1][0]) + f_rule(o['dec'][1][1])
+
+
+def oracle_rule_dec(case, o):
+    if o['dec'][0] == 'ok' and o['dec'][1] is not None and not o.get('stable'):
+        return ('rule-file-decoded-value-does-not-roundtrip', 'file name %r reads as %r which is written as %r'
+                % (case['name'], o['dec'][1], o.get('reenc')))
+    return None
+
+
 # ------------------------------------------------------------------ registry
 KINDS = {
     'basen': dict(gen=gen_basen, impl=impl_basen, flat=flat_basen, term=term_basen, oracle=oracle_basen,
@@ -897,6 +1113,12 @@ KINDS = {
     'node_dec': dict(gen=gen_node_dec, impl=lambda c: {'dec': _decode_node(c['name'])}, flat=flat_node_dec,
                      term=lambda c, o: '(CNodeDec %s)' % t_str(c['name']), oracle=oracle_node_dec,
                      nontrivial=lambda c, o: ',' in c['name'], weight=1),
+    'rule': dict(gen=gen_rule, impl=impl_rule, flat=flat_rule,
+                 term=lambda c, o: '(CRule %s %s)' % (t_str(c['chain']), t_rule(c['rule'])), oracle=oracle_rule,
+                 nontrivial=lambda c, o: True, weight=4),
+    'rule_dec': dict(gen=gen_rule_dec, impl=impl_rule_dec, flat=flat_rule_dec,
+                     term=lambda c, o: '(CRuleDec %s)' % t_str(c['name']), oracle=oracle_rule_dec,
+                     nontrivial=lambda c, o: bool(c['name']), weight=3),
 }
 SCHEDULE = [k for k, d in KINDS.items() for _ in range(d['weight'])]
 
@@ -960,11 +1182,11 @@ ASSUMPTIONS = [
 
 def run(tier, seed):
     core.standard_run(PID, tier, seed, {
-        'model_vos': ['Codec/C15Run', 'Gen/Tables'], 'table_sections': ['c15_names', 'c15_events'],
+        'model_vos': ['Codec/C15Run', 'Gen/Tables'], 'table_sections': ['c15_names', 'c15_events', 'c15_rules'],
         'preamble': PREAMBLE, 'run_fn': RUN_FN, 'in_type': 'c15case',
         'gen_case': gen_case, 'impl_run': impl_run, 'expected': expected, 'case_term': case_term,
         'oracle': oracle, 'nontrivial': nontrivial,
-        'n_quick': 2100, 'n_thorough': 30000, 'search_quick': 4000, 'search_thorough': 100000,
+        'n_quick': 2800, 'n_thorough': 30000, 'search_quick': 4000, 'search_thorough': 100000,
         'corpus': 'c15.json',
         'rule': 'seeded generator (one random.Random(seed)); kinds in a fixed weighted rotation; every case is drawn '
                 'from the malformed stream with probability 1/4 (inputs outside the stated domain, decoders fed '
